@@ -16,6 +16,8 @@
    C20_scenario              any store, any calls, any schedule: every thread obtains the specified
                              solo result and never writes anything but content to a stand-off file
    C20_scenario_solo         the specified result is what each entry point yields alone
+                             (these three for stores whose stand-off files can be written; a failing
+                             write is covered by the correspondence run only: C20_failed_write_repeats)
    C20_coarse, C20_scenario_coarse
                              the switch-only-at-yield-sites granularity of the scheduler of the
                              harness is a special case of the schedules quantified over
@@ -54,11 +56,12 @@ Theorem C20_solo : forall sh i n st t o m1,
              /\ exists rest, out t' ++ rest = o.
 Proof. exact solo_generic. Qed.
 
-Theorem C20_entry_points : forall f mem o,
+Theorem C20_entry_points : forall f mem o, writable mem = true ->
   sem Allow (prog (S f) mem o) = Some (spec_out mem o, Allow).
 Proof. exact sem_prog. Qed.
 
 Theorem C20_scenario : forall sc sched i o,
+  writable (members sc) = true ->
   nth_error (ops sc) i = Some o ->
   exists t', nth_error (thr (run false sched (init sc))) i = Some t' /\ dead t' = false /\ files_ok t'
              /\ (finished t' = true -> out t' = spec_out (members sc) o)
@@ -66,6 +69,7 @@ Theorem C20_scenario : forall sc sched i o,
 Proof. exact scenario_independent. Qed.
 
 Theorem C20_scenario_solo : forall sh sc n i o,
+  writable (members sc) = true ->
   nth_error (ops sc) i = Some o ->
   exists t', nth_error (thr (run sh (repeat i n) (init sc))) i = Some t' /\ dead t' = false
              /\ (finished t' = true -> out t' = spec_out (members sc) o).
@@ -75,6 +79,7 @@ Theorem C20_coarse : forall sh cs st, exists fs, run_coarse sh cs st = run sh fs
 Proof. exact run_coarse_is_run. Qed.
 
 Theorem C20_scenario_coarse : forall sc cs i o t',
+  writable (members sc) = true ->
   nth_error (ops sc) i = Some o ->
   nth_error (thr (run_coarse false cs (init sc))) i = Some t' ->
   files_ok t' /\ dead t' = false /\ (finished t' = true -> out t' = spec_out (members sc) o).
@@ -93,6 +98,7 @@ Theorem C20_shared_readers_independent : forall c0 st,
 Proof. exact shared_readers_independent. Qed.
 
 Theorem C20_shared_guarded : forall sc sched i o,
+  writable (members sc) = true ->
   nth_error (ops sc) i = Some o ->
   Shared_mode_race (changed0 sc) (thr (init sc)) i = false ->
   exists t', nth_error (thr (run true sched (init sc))) i = Some t' /\ dead t' = false /\ files_ok t'
@@ -132,6 +138,19 @@ Theorem C20_repaired_on_the_witnesses :
   /\ result 1 (run_coarse false [0; 0; 0; 0; 0; 0; 0; 0; 1; 1; 1; 1; 1] (init witness_SS)) = Some (true, [t_include 0; t_include 1])
   /\ file_writes 1 (run_coarse false [1; 1; 1; 0; 0; 0; 1; 0; 1; 1; 1; 1] (init witness_BA)) = [(0, t_inline 0)].
 Proof. exact local_witnesses_fine. Qed.
+
+(* a stand-off file that cannot be written (outside the theorems above, which assume writable
+   files; covered by the correspondence run): the call returns Err, and returns Err again - since
+   fix 7e4eec1 a failed write leaves the mode as it was.  Two threads, each calling
+   store.to_json_string() twice. *)
+Example C20_failed_write_repeats :
+  let sc := mkScen [Txt; JsonBroken] [false; true] [OpStoreTwice; OpStoreTwice] in
+  let st := run_coarse false (concat (repeat [0; 1; 1; 0; 0] 7)) (init sc) in
+  map (fun i => result i st) [0; 1]
+  = [Some (true, spec_result (members sc) (changed0 sc) OpStoreTwice);
+     Some (true, spec_result (members sc) (changed0 sc) OpStoreTwice)]
+  /\ spec_result (members sc) (changed0 sc) OpStoreTwice = [t_err; t_sep; t_err; t_sep].
+Proof. vm_compute. split; reflexivity. Qed.
 
 (* non-vacuity: real sharing - two threads serialise a store with an inline resource, a changed
    plain-text stand-off resource and a changed stand-off dataset (both flush, both switch their
